@@ -17,11 +17,19 @@ class ThreadView:
         # frozen at first sight: a real Thread object keeps its ident after it ended, and the
         # OS may hand the same real ident to a later thread - which must not leak through
         rec = tw.by_real.get(thread.ident)
-        self._rec = rec if (rec is not None and rec.get('thread') is thread) else None
+        if rec is not None and rec.get('thread') is None and rec['kind'] == 'lowlevel' \
+                and isinstance(thread, threading._DummyThread) and rec.get('poked'):
+            # a _thread-level thread that made itself known to threading later on
+            # (threading.current_thread() registers a _DummyThread for it)
+            self._rec = rec
+        else:
+            self._rec = rec if (rec is not None and rec.get('thread') is thread) else None
         self.ident = self._rec['sim'] if self._rec is not None else thread.ident
 
     @property
     def name(self):
+        if self._rec is not None and self._rec['kind'] == 'lowlevel':
+            return 'Dummy-%d' % self._rec['sim']     # (the real counter-based name is not stable)
         return self._t.name
 
     def is_alive(self):
@@ -56,10 +64,18 @@ class ThreadWorld:
         rec = {'tname': tname, 'kind': e['kind'], 'name': e.get('name'), 'go': threading.Event(),
                'ready': threading.Event(), 'real': None, 'thread': None, 'alive': True}
 
+        rec.update({'poke': threading.Event(), 'poke_ack': threading.Event(), 'poked': False})
+
         def body():
             rec['real'] = threading.get_ident()
             rec['ready'].set()
-            rec['go'].wait(60)
+            for _ in range(600):
+                if rec['go'].wait(0.1):
+                    break
+                if rec['poke'].is_set():
+                    rec['poke'].clear()
+                    threading.current_thread()     # logging, Thread.join, ... do this
+                    rec['poke_ack'].set()
 
         if self.free and self.rng.random() < self.p_reuse:
             rec['sim'], rec['prev_kind'] = self.free.pop(self.rng.randrange(len(self.free)))
@@ -99,6 +115,18 @@ class ThreadWorld:
         self.free.append((rec['sim'], rec['kind']))
         self.log.append(('end', e['tname'], rec['sim']))
 
+    def poke(self, e):
+        """A running _thread-level thread calls threading.current_thread(): from now on
+        threading.enumerate() knows it (as a _DummyThread)."""
+        rec = self.reg.get(e['tname'])
+        if rec is None or not rec['alive'] or rec['kind'] != 'lowlevel' or rec['poked']:
+            return
+        rec['poked'] = True
+        rec['poke'].set()
+        if not rec['poke_ack'].wait(10):
+            raise RuntimeError('thread did not answer the poke')
+        self.log.append(('poke', e['tname'], rec['sim']))
+
     def end_all(self):
         for rec in list(self.reg.values()):
             if rec['alive']:
@@ -117,9 +145,22 @@ class ThreadWorld:
     def enumerate(self):
         out = []
         for t in threading.enumerate():
-            v = self.views.get(id(t))
+            rec = self.by_real.get(t.ident)
+            if isinstance(t, threading._DummyThread) and (rec is None or not rec['alive']
+                                                          or not rec.get('poked')):
+                # CPython keeps the _DummyThread of an ended thread listed for ever; a stale
+                # entry of one of the world's threads is not modelled
+                if rec is None and t.ident not in sys._current_frames():
+                    continue
+                if rec is not None:
+                    continue
+            # (CPython hands the stale _DummyThread of an ended thread to a new thread that got
+            # the same real ident: such an object stands for whichever thread owns it now)
+            key = (id(t), rec['tname']) if isinstance(t, threading._DummyThread) \
+                and rec is not None else id(t)
+            v = self.views.get(key)
             if v is None or v._t is not t:
-                v = self.views[id(t)] = ThreadView(self, t)
+                v = self.views[key] = ThreadView(self, t)
             out.append(v)
         return out
 
